@@ -294,7 +294,10 @@ func (s *TxStore) insertMinedTxForImporting(tx mwdb.DBTransaction,
 		}
 		err = putBlockRecord(nsBlocks, block, &rec.Hash)
 	} else {
-		blkHash, err := readBlockHashFromValue(blockValue)
+		var blkHash wire.Hash
+		// no ':=' here: the error of putRawBlockRecord below must reach the
+		// check after this block
+		blkHash, err = readBlockHashFromValue(blockValue)
 		if err != nil {
 			return err
 		}
